@@ -141,3 +141,10 @@ Definition multi_lm (nodes : list Z) (edges : list (Z * Z * Q)) (thresholds : li
           end
       end
   end.
+
+(* Edge rows with a NULL match_probability: every filter of the routine is `match_probability >= t`
+   with a threshold (the first clustering, __splink__relevant_edges, every re-clustering; the LEFT
+   JOIN of __splink__cluster_edge_probabilities reads the relevant edges only), so such rows are inert. *)
+Definition multi_n (nodes : list Z) (edges : list (Z * Z * option Q)) (thresholds : list Q)
+  : list (Q * list (Z * Z)) :=
+  multi nodes (non_null edges) thresholds.
